@@ -44,7 +44,7 @@ def run(ctx):
     allz = sorted(eb)
     nb = 16
     batches = [allz[i::nb] for i in range(nb)]
-    outs = forkrun.map_fresh("ptv.massexec", "serve", [{"zs": b, "private": True} for b in batches])
+    outs = forkrun.map_fresh("ptv.massexec", "serve", [{"zs": b, "private": True, "variant": i % 8} for i, b in enumerate(batches)])
     c = rawtables.module_constants("constants")
     header = {"avogadro": dec.to_dec(c["avogadro_number"]), "symof": dict((str(z), v[1]) for z, v in eb.items())}
     total = 0
